@@ -140,8 +140,13 @@ def _snapshot_parts(f, selfname):
             if fld in tg or unparse(st.value) == fld:
                 aliases |= {t for t in tg if t.isidentifier()}
 
+    def it(e):
+        # `dc = self.data_collection; for data in dc`: the collection behind a local name
+        from ..util import expand_locals
+        return unparse(expand_locals(f.node, e))
+
     def comp_parts(c):
-        gens = [(unparse(g.target), unparse(g.iter)) for g in c.generators]
+        gens = [(unparse(g.target), it(g.iter)) for g in c.generators]
         cond = any(g.ifs for g in c.generators)
         if isinstance(c, ast.DictComp):
             return gens, unparse(c.key), unparse(c.value), cond
@@ -176,7 +181,7 @@ def _snapshot_parts(f, selfname):
                     while cur is not st:
                         cur = pm.get(id(cur))
                         if isinstance(cur, ast.For):
-                            gens.insert(0, (unparse(cur.target), unparse(cur.iter)))
+                            gens.insert(0, (unparse(cur.target), it(cur.iter)))
                         elif isinstance(cur, (ast.If, ast.Try, ast.While)):
                             cond = True
                     if reset:
@@ -239,6 +244,25 @@ def rule_c(ctx, ix):
                 if any(unparse(cj).replace(' ', '').endswith('notin%s.old_states' % u) for cj in conj) and \
                         any(call_name(cc) == 'delete' for cc in calls_in(x)):
                     de = True
+        if not de:
+            # the same test as a guard clause (`if subset in self.old_states: continue`) or nested differently
+            from .. import cond as _c
+            pm_u2 = parent_map(undo.node)
+            for cc in calls_in(undo.node):
+                if call_name(cc) != 'delete':
+                    continue
+                st_ = cc
+                while st_ is not None and not isinstance(st_, ast.stmt):
+                    st_ = pm_u2.get(id(st_))
+                pc_ = _c.path_condition(undo.node, st_, expand=False) if st_ is not None else None
+                if pc_ is None:
+                    continue
+                for a_ in _c.atoms(pc_):
+                    try:
+                        if a_.startswith('in|') and a_.endswith('|%s.old_states' % u) and _c.implies(pc_, _c.Not(_c.T(a_))):
+                            de = True
+                    except ValueError:
+                        pass
         ctx.ob(R, undo.construct, 'undo deletes subsets that are absent from the snapshot', de,
                detail='%s.undo no longer deletes the subsets the command created' % cname, where=undo.where)
 
